@@ -570,7 +570,24 @@ def gen_cases(ctx, round, entry):
             f2 = [{"name": "i", "t": "f8", "o": "<", "shape": []}, {"name": "s", "t": "S3", "o": "|", "shape": []}]
             cs.append({"delim": d, "fields": f2, "rows": [[["3ff8000000000000"], [b" ab".hex()]], [["4000000000000000"], [b"\tcd".hex()]]],
                        "family": "known-class" if d == "\t" else "ws-after-delim"})
-    n = ctx.n(250, 5000) if round == 0 else ctx.n(150, 1500)
+        # -- rows that are entirely blank (string-only tables; the row count of Recfile comes from counting lines)
+        for d in DELIMS:
+            for ncol in (1, 2, 3):
+                w = r.randint(1, 12)
+                f = [{"name": "s%d" % i, "t": "S%d" % w, "o": "|", "shape": []} for i in range(ncol)]
+                blank = lambda: bytes(r.choice(b" \t" if d != "\t" else b" ") for _ in range(w)).hex()     # noqa
+                word = lambda: bytes(r.choice(b"ab c") for _ in range(w)).hex()                            # noqa
+                nrows = r.randint(1, 5)
+                kinds = [r.random() < 0.6 for _ in range(nrows)]
+                kinds[r.randrange(nrows)] = True
+                cs.append({"delim": d, "fields": f, "family": "blank-rows",
+                           "rows": [[[blank() if kb else word()] for _ in range(ncol)] for kb in kinds]})
+        # -- many rows
+        for nrows in ((37,) if q else (37, 150, 1000)):
+            f = [{"name": "i", "t": "i8", "o": ">", "shape": []}, {"name": "s", "t": "S2", "o": "|", "shape": []},
+                 {"name": "x", "t": "f4", "o": "<", "shape": [2]}]
+            cs.append(mk_case(r, f, nrows, r.choice(DELIMS), "many-rows", True))
+    n = ctx.n(250, 3000) if round == 0 else ctx.n(150, 1500)
     for _ in range(n):
         nf = r.choice([1, 2, 2, 3, 3, 4, 5, 6])
         fields = [rnd_field(r, i) for i in range(nf)]
